@@ -163,21 +163,23 @@ theorem mkCellNow_inv (r : Region) (cell : List Rat) (m : Mesh) (h : mkCellNow? 
             · cases h0
             · split at h0
               · cases h0
-              · injection h0 with h0
-                have hpos : ∀ x ∈ m0.n, 0 < x := by
-                  intro x hx
-                  apply Nat.pos_of_ne_zero
-                  intro hc
-                  apply hany
-                  rw [List.any_eq_true]
-                  exact ⟨x, hx, by simp [hc]⟩
-                have hlen : m0.n.length = r.ndim := by rw [← h0]; simp
-                refine ⟨by rw [← h0], hlen, ?_, by rw [← h0]; simp [String.toLower], by rw [← h0]⟩
-                intro a ha
-                have hmem : m0.nAt a ∈ m0.n := by
-                  unfold Mesh.nAt
-                  exact getD_mem _ _ _ (by rw [hlen]; exact ha)
-                exact hpos _ hmem
+              · split at h0
+                · cases h0
+                · injection h0 with h0
+                  have hpos : ∀ x ∈ m0.n, 0 < x := by
+                    intro x hx
+                    apply Nat.pos_of_ne_zero
+                    intro hc
+                    apply hany
+                    rw [List.any_eq_true]
+                    exact ⟨x, hx, by simp [hc]⟩
+                  have hlen : m0.n.length = r.ndim := by rw [← h0]; simp
+                  refine ⟨by rw [← h0], hlen, ?_, by rw [← h0]; simp [String.toLower], by rw [← h0]⟩
+                  intro a ha
+                  have hmem : m0.nAt a ∈ m0.n := by
+                    unfold Mesh.nAt
+                    exact getD_mem _ _ _ (by rw [hlen]; exact ha)
+                  exact hpos _ hmem
 
 theorem asArray_shape {α} (val : NDA α) (n : List Nat) (k : Nat) (d : NDA α) (h : asArray val n k = .ok d) :
     d.shape = n ++ [k] := by
